@@ -1459,7 +1459,8 @@ def check_read(case, hdr, rname, rsec, got, loads):
             elif not c['secret'] and not rsec:
                 if got != ['str', cps(c['value'])]:
                     try:
-                        garbled = got == ['str', cps(c['value'].encode('utf8').decode('latin1'))]
+                        garbled = got == ['str', cps(''.join(ch if ord(ch) < 256 else ch.encode('utf8').decode('latin1')
+                                                             for ch in c['value']))]
                     except UnicodeError:
                         garbled = False
                     return 'plain cookie does not round-trip%s: set %r, read %s' % (
